@@ -7100,6 +7100,9 @@ size_t ZSTD_compressSequences(ZSTD_CCtx* cctx,
     }
 
     DEBUGLOG(4, "Final compressed size: %zu", cSize);
+    /* The frame is complete : like ZSTD_compressStream2(), leave the context ready to start a new session
+     * (the initialization above has put it into the loading stage). */
+    ZSTD_CCtx_reset(cctx, ZSTD_reset_session_only);
     return cSize;
 }
 
